@@ -24,6 +24,10 @@
 (*  empty   emptyQueue() = true (or a time-out with no DisableQueueNotify  *)
 (*          possibly alive during the call) implies every event whose      *)
 (*          enqueue ended before the call began is completely consumed.    *)
+(*  sorted  (runs with the OrderedQueueList policy, ORDERED=1) within one     *)
+(*          processing call the events are dispatched in non-decreasing    *)
+(*          order of the comparator's key (here uid % 10) - C13 under       *)
+(*          contention.                                                     *)
 (*  locks   an unlocked structural access while several threads are live   *)
 (*          ("ua") has no step here.                                       *)
 (***************************************************************************)
@@ -31,6 +35,7 @@ EXTENDS Naturals, Integers, Sequences, FiniteSets, TLC, Json, IOUtils
 
 TraceLog == ndJsonDeserialize(IOEnv.TRACE)
 Threads == {0, 1, 2, 3, 9}
+Ordered == IF "ORDERED" \in DOMAIN IOEnv THEN IOEnv.ORDERED = "1" ELSE FALSE
 
 VARIABLES ev,        \* uid -> [v, eb (enqueue begun), ee (index of enqueue end or 0), c ("none","dispatching","dispatched","taken"), by]
           call,      \* thread -> [op, at (index of begin), n (events dispatched in this call), to (time-out fired)]
@@ -43,7 +48,7 @@ VARIABLES ev,        \* uid -> [v, eb (enqueue begun), ee (index of enqueue end 
           l
 vars == <<ev, call, dqnB, dqnE, dofB, dofE, sawOk, dqnSeen, mayClear, last, sel, l>>
 
-Idle == [op |-> "idle", at |-> 0, n |-> 0, to |-> FALSE, m |-> 0]
+Idle == [op |-> "idle", at |-> 0, n |-> 0, to |-> FALSE, m |-> 0, k |-> 0]
 Init == /\ ev = <<>> /\ call = [t \in Threads |-> Idle]
         /\ dqnB = 0 /\ dqnE = 0 /\ dofB = 0 /\ dofE = 0
         /\ sawOk = [t \in Threads |-> FALSE] /\ dqnSeen = [t \in Threads |-> FALSE]
@@ -68,7 +73,7 @@ Refresh(evn, calln, cE, dB, cB, dE) ==
    /\ dqnSeen' = [t \in Threads |-> IF calln[t].op = "wait" THEN (IF call[t].op = "wait" THEN dqnSeen[t] ELSE FALSE) \/ DqnPossiblyAlive(cB, dE) ELSE FALSE]
 Same(evn, calln) == Refresh(evn, calln, dqnE, dofB, dqnB, dofE) /\ UNCHANGED <<dqnB, dqnE, dofB, dofE>>
 
-Begin(t, op) == call[t].op = "idle" /\ call' = [call EXCEPT ![t] = [op |-> op, at |-> l, n |-> 0, to |-> FALSE, m |-> IF op = "proc" THEN E.a ELSE 0]]
+Begin(t, op) == call[t].op = "idle" /\ call' = [call EXCEPT ![t] = [op |-> op, at |-> l, n |-> 0, to |-> FALSE, m |-> IF op = "proc" THEN E.a ELSE 0, k |-> 0]]
 End(t, op) == call[t].op = op /\ call' = [call EXCEPT ![t] = Idle]
 
 \* ---- enqueue
@@ -90,7 +95,8 @@ OrderOk(c, u, selective) ==
 EvEnter == /\ Is("en") /\ E.a \in Uids /\ call[E.t].op = "proc"
            /\ ev[E.a].eb /\ ev[E.a].c = "none" /\ E.b = ev[E.a].v               \* never twice, payload intact
            /\ ev' = [ev EXCEPT ![E.a].c = "dispatching", ![E.a].by = E.t]
-           /\ call' = [call EXCEPT ![E.t].n = @ + 1]
+           /\ (Ordered => E.a % 10 >= call[E.t].k)                                \* one batch is dispatched in comparator order
+           /\ call' = [call EXCEPT ![E.t].n = @ + 1, ![E.t].k = E.a % 10]
            /\ OrderOk(E.t, E.a, call[E.t].m \in {3, 4})
            /\ Same(ev', call') /\ UNCHANGED <<mayClear, sel>>
 EvRet == /\ Is("rt") /\ E.a \in Uids /\ ev[E.a].c = "dispatching" /\ ev[E.a].by = E.t
